@@ -19,6 +19,15 @@
 #include <signal.h>
 #include <gmssl/digest.h>
 
+static pki_t pki_exact[2]; static int pki_exact_ready[2];
+static pki_t *get_pki_exact(int tlcp) {
+	if (!pki_exact_ready[tlcp]) {
+		ent_seed(0xE8AC70 + (uint64_t)tlcp, -1); ent_clock(T0);
+		if (mk_pki_exact(&pki_exact[tlcp], tlcp) != 1) return NULL;
+		pki_exact_ready[tlcp] = 1;
+	}
+	return &pki_exact[tlcp];
+}
 static pki_t pki[4]; static int pki_ready[4];
 static pki_t *get_pki(int depth) {
 	if (!pki_ready[depth]) {
@@ -91,6 +100,18 @@ static void report_and_transfer(session_t *S, int protocol, uint64_t seed, char 
 				uint8_t *buf = malloc(1); size_t sent = 99; int r = ep_send(e, buf, 0, &sent);
 				if (r != 1) printf("eERR"); else printf("e%zu", sent);
 				free(buf);
+			} else if (t[0] == 'n') {      /* the same receive on a non-blocking socket: poll, retry on -EAGAIN */
+				uint8_t *buf = malloc(n ? n : 1); size_t got = 0; int r = -EAGAIN, spins = 0;
+				int fl = fcntl(e->sock, F_GETFL); fcntl(e->sock, F_SETFL, fl | O_NONBLOCK);
+				while (spins++ < 400) {
+					struct pollfd pf = { e->sock, POLLIN, 0 };
+					r = ep_recv(e, buf, n, &got);
+					if (r != -EAGAIN) break;
+					poll(&pf, 1, 20);
+				}
+				fcntl(e->sock, F_SETFL, fl);
+				if (r != 1) printf("nERR"); else if (got > n) printf("nBADLEN"); else printf("n%zu:%08x", got, fnv(buf, got));
+				free(buf);
 			} else if (t[0] == 'r') {
 				uint8_t *buf = malloc(n ? n : 1); size_t got = 0; int r = ep_recv(e, buf, n, &got);
 				if (r != 1) printf("rERR"); else if (got > n) printf("rBADLEN"); else printf("r%zu:%08x", got, fnv(buf, got));
@@ -124,10 +145,14 @@ static int setup_pair(session_t *S, pki_t *k, int protocol, int auth, int nca, u
 	if (nca == 1) { anch = malloc(k->root.len); memcpy(anch, k->root.der, k->root.len); anchlen = k->root.len; }
 	else if (nca == 0) { if (bundle_build(&anch, &anchlen, &k->root, 5, (int)(seed % 4), TLS_MAX_CERTIFICATES_SIZE) != 1) return -1; }
 	else if (bundle_build(&anch, &anchlen, &k->root, nca, (int)(seed % (uint64_t)nca), 0) != 1) return -1;
-	r = (ep_setup_on(&S->s, sconn, protocol, 0, schain, schainlen, &k->ssign.key, protocol == TLS_protocol_tlcp ? &k->senc.key : NULL,
-			auth ? anch : NULL, auth ? anchlen : 0) == 1
-		&& ep_setup_on(&S->c, cconn, protocol, 1, auth ? cchain : NULL, auth ? cchainlen : 0, auth ? &k->csign.key : NULL, NULL,
-			anch, anchlen) == 1) ? 1 : -1;
+	{	/* auth: 0 = none; 1 = server requests, client has a certificate; 2 = client has a certificate, server does
+		 * not ask; 3 = server requests, client has none */
+		int srv_req = auth == 1 || auth == 3, cli_has = auth == 1 || auth == 2;
+		r = (ep_setup_on(&S->s, sconn, protocol, 0, schain, schainlen, &k->ssign.key, protocol == TLS_protocol_tlcp ? &k->senc.key : NULL,
+				srv_req ? anch : NULL, srv_req ? anchlen : 0) == 1
+			&& ep_setup_on(&S->c, cconn, protocol, 1, cli_has ? cchain : NULL, cli_has ? cchainlen : 0, cli_has ? &k->csign.key : NULL, NULL,
+				anch, anchlen) == 1) ? 1 : -1;
+	}
 	free(schain); free(cchain); free(anch);
 	S->c.seed = seed * 2 + 1; S->s.seed = seed * 2 + 2;
 	return r;
@@ -138,12 +163,15 @@ static void do_hs(size_t nw, char **w) {
 	int nca = nw >= 8 ? atoi(w[7]) : 1;
 	uint64_t seed = strtoull(w[4], NULL, 10);
 	pki_t *k; session_t *S;
-	if (protocol < 0 || depth < 1 || depth > 3 || !(k = get_pki(depth))) { printf("ERR setup"); return; }
+	if (protocol < 0 || !((depth >= 1 && depth <= 3) || depth == 9)) { printf("ERR setup"); return; }
+	k = depth == 9 ? get_pki_exact(protocol == TLS_protocol_tlcp) : get_pki(depth);      /* 9: presented chains of exactly 2048 bytes */
+	if (!k) { printf("ERR pki"); return; }
 	ent_seed(0xCA0000 + (uint64_t)nca, -1);
 	S = calloc(1, sizeof(*S));
 	if (setup_pair(S, k, protocol, auth, nca, seed, NULL, NULL) != 1) { printf("ERR setup"); free(S); return; }
 	S->px.split = split; S->px.split_seed = seed;
 	session_run(S, 8000, 1);
+	printf("chainlen=%zu/%zu ", S->s.ctx.certslen, S->c.ctx.certslen);
 	report_and_transfer(S, protocol, seed, w[6]);
 	session_close(S); free(S);
 }
@@ -193,6 +221,16 @@ int tls13_compute_verify_data(const uint8_t *handshake_traffic_secret, const DIG
 static void handle(size_t nw, char **w) {
 	if (!strcmp(w[0], "hs") && (nw == 7 || nw == 8)) do_hs(nw, w);
 	else if (!strcmp(w[0], "hs2") && nw == 6) do_hs2(w);
+	else if (!strcmp(w[0], "sigcheck") && nw == 5) {
+		/* sm2_verify called directly: does <sig> verify over <content> under the public key of <cert> with identity <id>? */
+		buf_t id = hex2buf(w[1]), cert = hex2buf(w[2]), content = hex2buf(w[3]), sg = hex2buf(w[4]);
+		SM2_KEY pub; SM2_VERIFY_CTX vc; int r = -1;
+		if (x509_cert_get_subject_public_key(cert.p, cert.n, &pub) == 1
+			&& sm2_verify_init(&vc, &pub, (char *)id.p, id.n) == 1
+			&& sm2_verify_update(&vc, content.p, content.n) == 1) r = sm2_verify_finish(&vc, sg.p, sg.n);
+		printf("%d", r == 1 ? 1 : 0);
+		free(id.p); free(cert.p); free(content.p); free(sg.p);
+	}
 	else if (!strcmp(w[0], "prf") && nw == 6) {
 		buf_t secret = hex2buf(w[1]), label = hex2buf(w[2]), seed = hex2buf(w[3]), more = hex2buf(w[4]);
 		size_t outlen = strtoul(w[5], NULL, 10); uint8_t *out = malloc(outlen ? outlen : 1);
